@@ -163,7 +163,12 @@ def configs(tier):
         jobs.append(("vf.props.indexing", "c19_contract", dict(contract=name, line=line, per_condition_timeout=tmo, _timeout_s=tmo + 180)))
     if tier == "thorough":
         wide = _write_wide()
+        # only contracts whose oracle is range-agnostic (everything goes through `_check`) may be widened mechanically
+        widenable = {"int_index", "order_slice", "order_slice_open_start", "order_slice_no_stop", "block_and_order_slices", "list_index",
+                     "order_list", "two_infinite", "two_infinite_slices", "scalar_series", "scalar_series_slice", "wrong_number_of_indices"}
         for name, line in _contracts():
+            if name not in widenable:
+                continue
             jobs.append(("vf.props.indexing", "c19_contract", dict(contract=name, line=line, harness=str(wide), per_condition_timeout=1500, per_path_timeout=60, _timeout_s=1700, _cost=10)))
     jobs.append(("vf.props.indexing", "c19_recursion", dict(recursion=True)))
     return jobs
